@@ -38,6 +38,8 @@ impl LeafCache {
 
     /// Get a cache entry, updating the LRU state.
     pub fn get(&self, page_number: PageNumber) -> Option<Arc<LeafNode>> {
+        #[cfg(nomt_verif)]
+        let _verif_order = verif::order_guard();
         let mut shard = self.inner.shard_for(page_number);
 
         #[cfg(nomt_verif)]
@@ -60,6 +62,8 @@ impl LeafCache {
 
     /// Evict all excess items from the cache.
     pub fn evict(&self) {
+        #[cfg(nomt_verif)]
+        let _verif_order = verif::order_guard();
         #[cfg(nomt_verif)]
         let mut verif_index = 0usize;
         for shard in &self.inner.shards {
@@ -129,15 +133,35 @@ pub(crate) mod verif {
         }
     }
 
-    /// Reported by the two CALLERS of `LeafCache::insert` right before the call (the body of `insert` is left
-    /// untouched).
-    pub(crate) fn observe_insert(cache: &LeafCache, pn: PageNumber, node: &LeafNode) {
+    /// While an observer is installed, every observed call is made under this lock (taken before the shard's
+    /// lock), so that the order of the reports is the order in which the calls took effect.
+    static ORDER: parking_lot::Mutex<()> = parking_lot::Mutex::new(());
+
+    pub(super) fn order_guard() -> Option<parking_lot::MutexGuard<'static, ()>> {
+        if OBSERVER.read().unwrap().is_some() {
+            Some(ORDER.lock())
+        } else {
+            None
+        }
+    }
+
+    /// Reported by the three CALLERS of `LeafCache::insert` right before the call (the body of `insert` is left
+    /// untouched).  The caller keeps the returned guard until `insert` has returned: no observed `get` / `evict`
+    /// of another thread falls between the report and the insertion.
+    #[must_use]
+    pub(crate) fn observe_insert(
+        cache: &LeafCache,
+        pn: PageNumber,
+        node: &LeafNode,
+    ) -> Option<parking_lot::MutexGuard<'static, ()>> {
+        let guard = order_guard();
         observe(
             Kind::Insert,
             cache.inner.shard_index_for(pn),
             pn.0,
             Some(&node.inner[..]),
-        )
+        );
+        guard
     }
 
     pub struct LeafCacheSim {
